@@ -273,6 +273,10 @@ def run_obligation(task):
             verdict, _ = concrete_run(lambda *a: body(shard, *a), args)
             res["replays"] += 1
             bad = [s for s in parse_verdict(verdict) if s not in allowed]
+            if any(s.startswith("HARNESS:") for s in bad):
+                res["status"] = "HARNESS_ERROR"
+                res["notes"].append("replay of %r: %s" % (args, verdict))
+                break
             if not bad:
                 res["status"] = "HARNESS_ERROR"
                 res["notes"].append("counterexample %r does not reproduce concretely "
@@ -321,6 +325,8 @@ def tune_crosshair():
 
 
 def worker_main(conn):
+    import logging
+    logging.disable(logging.CRITICAL)    # streamz logs every exception of a user function
     sys.setrecursionlimit(10000)
     signal.signal(signal.SIGINT, signal.SIG_IGN)
     try:
